@@ -2,10 +2,13 @@
 // Case (see coq/C19/Model.v run_case):
 //   activeLevel prefixN nGroups { capLen cap.. level nOpts { nameLen name.. alias neg level flag arg? impl? dflt? descLen desc.. }* }*
 //   x? : 0 | 1 len bytes
-// Observation: per option (context order) nameLen name.. alias level neg ; descLen desc.. fault(0) ; defsLen defs.. ;
+//   optional trailer (NOT read by the model: it does not change the context a correct implementation ends up with):
+//   nDirectives { group k kind target nTail }*   - see struct Directive
+// Observation: [-997 if the context is inconsistent after the adds] per option (context order) nameLen name.. alias level neg ; descLen desc.. fault(0) ; defsLen defs.. ;
 //              0 nParsed { optIndex valLen val.. }*  |  errorClass (1 unknown, 2 ambiguous, 3 syntax, 9 other)
 #include "common.h"
 #include <deque>
+#include <memory>
 #include <potassco/program_opts/program_options.h>
 #include <potassco/program_opts/typed_value.h>
 #include <potassco/program_opts/errors.h>
@@ -13,8 +16,16 @@ namespace Po = Potassco::ProgramOptions;
 
 struct Spec {
 	std::string name, arg, impl, dflt, desc, key; bool hasArg, hasImpl, hasDflt; bool b; std::string s;
-	Spec() : hasArg(false), hasImpl(false), hasDflt(false), b(false) {}
+	ll alias; bool neg; ll level; bool flag;
+	Spec() : hasArg(false), hasImpl(false), hasDflt(false), b(false), alias(0), neg(false), level(0), flag(false) {}
 };
+struct GroupSpec { std::string cap; ll level; size_t first, count; };
+// A directive says how the context's group g is really put together: the group of the case is handed to OptionContext::add in several
+// pieces (same caption, same level), and a piece may end in options the context must REFUSE (DuplicateOption, caught, caller carries on):
+//   kind 0 clash of the long name with an option registered earlier, 1 clash of the alias, 3 clash of the long name + an unused alias,
+//   2 no clash (plain split).  `tail` further options follow the refused one inside the same piece.
+// A refused add keeps the options in front of the clash and nothing else, so the context is the one the case describes.
+struct Directive { size_t g, k; ll kind; size_t target, tail; };
 
 int main() {
 	Case c; Obs o;
@@ -23,38 +34,118 @@ int main() {
 		size_t prefix = (size_t)c.next();
 		size_t ng = (size_t)c.next();
 		std::deque<Spec> specs;
+		std::deque<std::string> sinks;
+		std::vector<GroupSpec> groups;
+		std::vector<std::string> refusedNames;
 		Po::OptionContext ctx("ctx");
-		bool bad = false;
+		bool bad = false, anomaly = false;
+		for (size_t g = 0; g != ng; ++g) {
+			GroupSpec gs;
+			gs.cap = c.bytes((size_t)c.next());
+			gs.level = c.next();
+			gs.first = specs.size();
+			gs.count = (size_t)c.next();
+			for (size_t k = 0; k != gs.count; ++k) {
+				specs.push_back(Spec());
+				Spec& s = specs.back();
+				s.name = c.bytes((size_t)c.next());
+				s.alias = c.next(); s.neg = c.next() != 0; s.level = c.next(); s.flag = c.next() != 0;
+				if (c.next() != 0) { s.hasArg = true;  s.arg = c.bytes((size_t)c.next()); }
+				if (c.next() != 0) { s.hasImpl = true; s.impl = c.bytes((size_t)c.next()); }
+				if (c.next() != 0) { s.hasDflt = true; s.dflt = c.bytes((size_t)c.next()); }
+				s.desc = c.bytes((size_t)c.next());
+			}
+			groups.push_back(gs);
+		}
+		std::vector<Directive> dirs;
+		if (c.more()) {
+			size_t nd = (size_t)c.next();
+			for (size_t i = 0; i != nd && c.more(); ++i) {
+				Directive d;
+				d.g = (size_t)c.next(); d.k = (size_t)c.next(); d.kind = c.next(); d.target = (size_t)c.next(); d.tail = (size_t)c.next() % 5;
+				dirs.push_back(d);
+			}
+		}
 		try {
 			for (size_t g = 0; g != ng; ++g) {
-				std::string cap = c.bytes((size_t)c.next());
-				ll glevel = c.next();
-				size_t no = (size_t)c.next();
-				Po::OptionGroup grp(cap, (Po::DescriptionLevel)glevel);
-				for (size_t k = 0; k != no; ++k) {
-					specs.push_back(Spec());
-					Spec& s = specs.back();
-					s.name = c.bytes((size_t)c.next());
-					ll alias = c.next(); bool neg = c.next() != 0; ll level = c.next(); bool flag = c.next() != 0;
-					if (c.next() != 0) { s.hasArg = true;  s.arg = c.bytes((size_t)c.next()); }
-					if (c.next() != 0) { s.hasImpl = true; s.impl = c.bytes((size_t)c.next()); }
-					if (c.next() != 0) { s.hasDflt = true; s.dflt = c.bytes((size_t)c.next()); }
-					s.desc = c.bytes((size_t)c.next());
-					Po::Value* v = flag ? static_cast<Po::Value*>(Po::flag(s.b)) : static_cast<Po::Value*>(Po::storeTo(s.s));
-					if (s.hasArg)  v->arg(s.arg.c_str());
-					if (s.hasImpl) v->implicit(s.impl.c_str());
-					if (s.hasDflt) v->defaultsTo(s.dflt.c_str());
+				const GroupSpec& gs = groups[g];
+				std::unique_ptr<Po::OptionGroup> piece(new Po::OptionGroup(gs.cap, (Po::DescriptionLevel)gs.level));
+				for (size_t k = 0; k <= gs.count; ++k) {
+					size_t cur = gs.first + k;   // number of options the context has accepted so far (pieces are added in order)
+					for (size_t di = 0; di != dirs.size(); ++di) {
+						const Directive& d = dirs[di];
+						if (d.g != g || std::min(d.k, gs.count) != k || cur == 0) continue;
+						if (d.kind != 2) {
+							size_t t = d.target % cur;
+							ll kind = d.kind;
+							if (kind == 1) {
+								std::vector<size_t> withAlias;
+								for (size_t j = 0; j != cur; ++j) if (specs[j].alias) withAlias.push_back(j);
+								if (withAlias.empty()) kind = 0; else t = withAlias[d.target % withAlias.size()];
+							}
+							std::string tag = "Z" + std::to_string(di);
+							sinks.push_back(std::string());
+							std::string dupName = kind == 1 ? tag + "dup" : specs[t].name;
+							char dupAlias = kind == 1 ? (char)specs[t].alias : kind == 3 ? '#' : (char)0;
+							if (kind == 1) refusedNames.push_back(dupName);
+							piece->addOption(Po::SharedOptPtr(new Po::Option(dupName, dupAlias, "refused", Po::storeTo(sinks.back())->defaultsTo("7"))));
+							for (size_t j = 0; j != d.tail; ++j) {
+								sinks.push_back(std::string());
+								refusedNames.push_back(tag + "tail" + std::to_string(j));
+								piece->addOption(Po::SharedOptPtr(new Po::Option(refusedNames.back(), 0, "behind the refused option", Po::storeTo(sinks.back())->defaultsTo("1"))));
+							}
+							bool refused = false;
+							try { ctx.add(*piece); } catch (const Po::DuplicateOption&) { refused = true; }
+							if (!refused) anomaly = true;
+						}
+						else { ctx.add(*piece); }
+						piece.reset(new Po::OptionGroup(gs.cap, (Po::DescriptionLevel)gs.level));
+					}
+					if (k == gs.count) break;
+					Spec& s = specs[cur];
+					Po::Value* v = s.flag ? static_cast<Po::Value*>(Po::flag(s.b)) : static_cast<Po::Value*>(Po::storeTo(s.s));
+					// the three descriptions share one setter (Value::desc) whose storage depends on how many were set before:
+					// attach them in an order chosen from the case (all six orders occur)
+					static const int perm[6][3] = {{0,1,2},{0,2,1},{1,0,2},{1,2,0},{2,0,1},{2,1,0}};
+					const int* pm = perm[(s.name.size() + (size_t)s.alias + (size_t)s.level + s.desc.size() + cur) % 6];
+					for (int j = 0; j != 3; ++j) {
+						if (pm[j] == 0 && s.hasArg)  v->arg(s.arg.c_str());
+						if (pm[j] == 1 && s.hasImpl) v->implicit(s.impl.c_str());
+						if (pm[j] == 2 && s.hasDflt) v->defaultsTo(s.dflt.c_str());
+					}
 					s.key = s.name;
-					if (neg) s.key += '!';
-					if (alias) { s.key += ','; s.key += (char)alias; }
-					s.key += ",@"; s.key += std::to_string(level);
-					grp.addOptions()(s.key.c_str(), v, s.desc.c_str());
+					if (s.neg) s.key += '!';
+					if (s.alias) { s.key += ','; s.key += (char)s.alias; }
+					s.key += ",@"; s.key += std::to_string(s.level);
+					piece->addOptions()(s.key.c_str(), v, s.desc.c_str());
 				}
-				ctx.add(grp);
+				ctx.add(*piece);
 			}
 		}
 		catch (const std::exception&) { bad = true; }
 		if (bad) { o.add(-998); o.flush(); continue; }
+		// The context must be consistent after refused adds: what its groups list (the source of description() and defaults()) is exactly
+		// what it registered (begin()..end(), reachable through tryFind), and no refused name is known to it.
+		{
+			size_t listed = 0;
+			for (size_t g = 0; g != ng; ++g) {
+				const Po::OptionGroup* grp = ctx.tryFindGroup(groups[g].cap);
+				if (!grp) { anomaly = true; continue; }
+				for (Po::OptionGroup::option_iterator it = grp->begin(); it != grp->end(); ++it, ++listed) {
+					bool found = false;
+					for (Po::OptionContext::option_iterator x = ctx.begin(); x != ctx.end(); ++x) found = found || x->get() == it->get();
+					if (!found) anomaly = true;
+				}
+			}
+			if (listed != ctx.size() || ctx.size() != specs.size()) anomaly = true;
+			for (Po::OptionContext::option_iterator x = ctx.begin(); x != ctx.end(); ++x) {
+				if (ctx.tryFind((*x)->name().c_str(), Po::OptionContext::find_name) != x) anomaly = true;
+			}
+			for (size_t i = 0; i != refusedNames.size(); ++i) {
+				if (ctx.tryFind(refusedNames[i].c_str(), Po::OptionContext::find_name) != ctx.end()) anomaly = true;
+			}
+		}
+		if (anomaly) { o.add(-997); }
 		for (Po::OptionContext::option_iterator it = ctx.begin(); it != ctx.end(); ++it) {
 			const Po::Option& opt = **it;
 			o.add((ll)opt.name().size()); o.addBytes(opt.name().data(), opt.name().size());
